@@ -14,6 +14,7 @@ import (
 	"path/filepath"
 	"runtime"
 	"sort"
+	"strconv"
 	"strings"
 	"sync"
 	"sync/atomic"
@@ -201,6 +202,11 @@ func NewCtx(prop, tier string, seed int64) *Ctx {
 		counters: map[string]int64{}, distinct: map[uint64]struct{}{},
 		sampleKeys: map[string]int{}, violKeys: map[string]bool{}, knownHits: map[string]int{},
 		Workers: runtime.NumCPU()}
+	if w := os.Getenv("VERIF_WORKERS"); w != "" {
+		if n, err := strconv.Atoi(w); err == nil && n > 0 {
+			c.Workers = n
+		}
+	}
 	c.loadKnown()
 	return c
 }
